@@ -194,7 +194,7 @@ def record_build_trace(rng, tid):
         decls = model.tokens_to_decls(tokens)
         cfg = rand_cfg_for(rng, decls)
         stg, _ = build_model(decls, cfg)
-        events.append({'decls': decls, 'cfg': cfg,
+        events.append({'decls': decls, 'cfg': cfg, 'scan': False, 'wiring': [],
                        'obs': {'ok': stg.ok, 'stage': 'config' if stg.stage != 'build' else 'build',
                                'family': family(stg), 'files': len(stg.result.files) if stg.ok else 0,
                                'exc': f'{stg.exc_name}: {str(stg.exc)[:160]}' if not stg.ok else ''}})
